@@ -50,7 +50,7 @@ pub fn plan(prop: &str, tier: &str, ctx: &Ctx) -> (u64, u64, String) {
             (
                 ex + if thorough { 30_000_000 } else { 1_000_000 },
                 ex,
-                format!("every (context, follower, suffix) triple: 44 scanner contexts x 89 follower characters (34 ASCII classes, one representative per UTF-8 lead byte C2..F4, NEL, NBSP, LS, BOM) x 5 suffixes; every sequence of 1..{tl} tokens over the 36-token YAML alphabet {:?} and every string of length <= {l} over the 16-symbol alphabet {:?}, each x 16 environments", crate::gen::TOKENS, crate::gen::C10_ALPHABET),
+                format!("every (context, follower, suffix) triple: 70 scanner contexts x 89 follower characters (34 ASCII classes, one representative per UTF-8 lead byte C2..F4, NEL, NBSP, LS, BOM) x 5 suffixes; every sequence of 1..{tl} tokens over the 36-token YAML alphabet {:?} and every string of length <= {l} over the 16-symbol alphabet {:?}, each x 16 environments", crate::gen::TOKENS, crate::gen::C10_ALPHABET),
             )
         }
         "C01" => {
@@ -73,7 +73,7 @@ pub fn plan(prop: &str, tier: &str, ctx: &Ctx) -> (u64, u64, String) {
             (
                 ex + if thorough { 60_000_000 } else { 2_000_000 },
                 ex,
-                format!("every byte string of length <= {l} over {{00,0A,20,2D,41,80,C3,E4,FE,FF}} x 4 traps; plus {} sized inputs (stored length 64 KiB / 1 MiB / 2 MiB and +-1, 5 kinds of tail, 3 encodings, BOM or not, 4 traps)", c18::ztail_count()),
+                format!("every byte string of length <= {l} over {{00,0A,20,2D,41,80,C3,E4,FE,FF}} x 4 traps; every sequence of 1..4 bytes over the UTF-8 malformation shapes {{41,80,BF,C0,C2,E0,ED,A0,F0,F4,90,F8}} (after an ASCII first byte) x 4 traps; plus {} sized inputs (stored length 64 KiB / 1 MiB / 2 MiB and +-1, 5 kinds of tail, 3 encodings, BOM or not, 4 traps)", c18::ztail_count()),
             )
         }
         _ => (0, 0, String::new()),
